@@ -116,6 +116,11 @@ type NNPCase struct {
 	// PresetOnMain: the main thread sets no_new_privs first (exported SetNoNewPrivs); the load then runs on another,
 	// already existing OS thread that does not carry the bit.
 	PresetOnMain bool `json:"preset_on_main,omitempty"`
+	// Prior (with PresetOnMain): what the main thread does instead of a bare SetNoNewPrivs before the judged load runs on the
+	// older thread: "declined-einval" = a load with NoNewPrivs and thread-sync plus an unknown flag bit (the kernel answers
+	// EINVAL after the main thread got the bit), "declined-divergent" = a load with NoNewPrivs and thread-sync that the kernel
+	// refuses because a third thread carries a different filter.
+	Prior string `json:"prior,omitempty"`
 }
 
 var (
@@ -274,6 +279,11 @@ func RunChild(bin, mode string, c *ChildCase, strace bool, timeout time.Duration
 	}
 	if err := cmd.Start(); err != nil {
 		return nil, err
+	}
+	if s := os.Getenv("VERIF_WATCHDOG_SECS"); s != "" && os.Getenv("VERIF_WATCHDOG_DIR") != "" { // debugging aid
+		if n, err := strconv.Atoi(s); err == nil {
+			timeout = time.Duration(n) * time.Second
+		}
 	}
 	res := &ChildResult{Pid: cmd.Process.Pid}
 	done := make(chan error, 1)
